@@ -76,7 +76,13 @@ def run (s : Sexp) : String :=
       let line := fun (k : Nat) =>
         let pre := uptoRow k evs
         s!"k{k}:" ++ showList (vars.map fun v => toString (pulled v pre))
-      let body := " ".intercalate ((List.range (n + 1)).map line)
+      -- `h{k}`: HISTORY "take k results, abandon, evaluate the same query again and take one result": the second
+      -- evaluation replays what is cached (pull events with indices already consumed) and pulls on demand beyond it,
+      -- so the generators have given out the maximum of what the two partial evaluations need
+      let k2 := 1   -- (no result at all: asking for one runs the evaluation to its end)
+      let hline := fun (k : Nat) =>
+        s!"h{k}:" ++ showList (vars.map fun v => toString (max (pulled v (uptoRow k evs)) (pulled v (uptoRow k2 evs))))
+      let body := " ".intercalate ((List.range (n + 1)).map line ++ (List.range (n + 1)).map hline)
       let full := "end:" ++ showList (vars.map fun v => toString (pulled v evs))
       if hasErr evs then "exc" else s!"n={n} {body} {full}"
     let evsN := traceQueryN w qq
